@@ -194,13 +194,20 @@ def ignore_cells():
                         it = ctx.interp(st)
                         args = tuple(Opaque('other', st.fresh('p%d' % i, OTHER)) for i in range(npos))
                         kw = {k: Opaque('other', st.fresh('k_' + k, OTHER)) for k in kwnames}
+                        before = dict(kw)
                         r = it.call(fv, [('f',), args, kw, typed, ign], {})
-                        return args, kw, r
+                        # frame: the caller's keyword dict is not modified (the wrappers pass it on to the function)
+                        if list(kw.items()) != list(before.items()) or any(kw[k] is not before[k] for k in kw):
+                            st.ghost['frame_broken'] = (sorted(before), sorted(kw))
+                        return args, before, r
                     for p in explore(run):
                         if p.kind != 'return':
                             bad = bad or (npos, kwnames, ign, typed, 'raises %r' % (p.value,))
                             continue
                         args, kw, r = p.value
+                        if 'frame_broken' in p.state.ghost:
+                            bad = bad or (npos, kwnames, ign, typed, 'args_to_key modified its kwargs argument: keys %r became %r'
+                                          % p.state.ghost['frame_broken'])
                         exp = ['f'] + [a for i, a in enumerate(args) if i not in ign] + [None]
                         kept = [(k, kw[k]) for k in sorted(kw) if k not in ign]
                         for k, v in kept:
